@@ -318,8 +318,85 @@ def run(ctx: common.Ctx):
                     add("after-other-language",
                         [pr.make_run(["--experimental-languages", "-l", ol, "-O", out("ol_other")] + [x for lk in lookups for x in ("-I", lk)] + [root], out("ol_other"), scratch / "cwd"),
                          pr.make_run(argv_for(me, out("ol_me")), out("ol_me"), scratch / "cwd")], 1, "history")
-    ctx.extra["paired_jobs"] = len(jobs)
-    results = pr.exec_jobs(common.REPO / "src", scratch, jobs, max_workers=14)
+    # ---- sequences of runs in ONE interpreter whose language configuration / options differ, every run against the same run in
+    #      a fresh interpreter (identifiers that need stropping: corpus type vnet.Keywords, field `register`, `class`, ...) -----------
+    cfgd = common.VERIF / "corpus" / "C10" / "config"
+    SEQ = {
+        "c": [("strop-prefix", ["--configuration", cfgd / "strop_prefix.yaml"]), ("default", []), ("strop-suffix", ["--configuration", cfgd / "strop_suffix.yaml"]),
+              ("big-endian-c11", ["--target-endianness", "big", "--language-standard", "c11"]), ("asserts", ["--enable-serialization-asserts"])],
+        "cpp": [("strop-prefix", ["--configuration", cfgd / "strop_prefix.yaml"]), ("default", []), ("strop-suffix", ["--configuration", cfgd / "strop_suffix.yaml"]),
+                ("c++17-pmr", ["--language-standard", "c++17-pmr"]), ("asserts-big", ["--enable-serialization-asserts", "--target-endianness", "big"])],
+        "py": [("strop-prefix", ["--configuration", cfgd / "strop_prefix.yaml"]), ("default", []), ("strop-suffix", ["--configuration", cfgd / "strop_suffix.yaml"]),
+               ("ext", ["--output-extension", ".pyi"])],
+        "html": [("default", []), ("ext", ["--output-extension", ".htm"]), ("pp", ["--pp-max-emptylines", "1", "--pp-trim-trailing-whitespace"])],
+    }
+    seq_jobs, seq_meta = [], {}
+    for ii, (iname, root, lookups) in enumerate(inputs if not ctx.quick else inputs[:1]):
+        for lang in LANGS:
+            V = SEQ[lang]
+
+            def sargv(extra, out, lang=lang, root=root, lookups=lookups):
+                return ["--experimental-languages", "-l", lang, "-O", out, root] + [x for lk in lookups for x in ("-I", lk)] + list(extra)
+
+            fresh = {}
+            for vi, (vn, extra) in enumerate(V):
+                out = scratch / "seq" / f"{ii}_{lang}_fresh_{vi}"
+                name = f"s{len(seq_jobs)}"
+                seq_jobs.append({"name": name, "runs": [pr.make_run(sargv(extra, out), out, scratch / "cwd")], "hashseed": "0", "fake_time": 1.0e9, "fake_step": 0.0})
+                fresh[vi] = name
+            orders = [list(range(len(V))), list(reversed(range(len(V))))]
+            perm = list(range(len(V))); rng.shuffle(perm); orders.append(perm)
+            for oi, order in enumerate(orders[: 2 if ctx.quick else 3]):
+                runs = []
+                for pos, vi in enumerate(order):
+                    out = scratch / "seq" / f"{ii}_{lang}_seq{oi}_{pos}"
+                    runs.append(pr.make_run(sargv(V[vi][1], out), out, scratch / "cwd"))
+                name = f"s{len(seq_jobs)}"
+                seq_jobs.append({"name": name, "runs": runs, "hashseed": "0", "fake_time": 1.0e9, "fake_step": 0.0})
+                seq_meta[name] = {"input": iname, "lang": lang, "order": order, "fresh": dict(fresh), "runs": runs, "variants": [v[0] for v in V],
+                                  "options": [[str(x) for x in v[1]] for v in V]}
+    ctx.extra["paired_jobs"] = len(jobs) + len(seq_jobs)
+    results = pr.exec_jobs(common.REPO / "src", scratch, jobs + seq_jobs, max_workers=14)
+    seq_fresh_jobs = {j["name"]: j for j in seq_jobs}
+    for name, sm in sorted(seq_meta.items(), key=lambda kv: int(kv[0][1:])):
+        res = results[name]
+        if isinstance(res, Exception):
+            ctx.broken.append({"kind": "paired-run-worker", "job": f"sequence {sm['lang']} {sm['order']}", "error": str(res)[:600]})
+            continue
+        for pos, vi in enumerate(sm["order"]):
+            fr = results[sm["fresh"][vi]]
+            if isinstance(fr, Exception):
+                ctx.broken.append({"kind": "paired-run-worker", "job": f"fresh {sm['lang']} {vi}", "error": str(fr)[:600]})
+                continue
+            fr, rr = fr[0], res[pos]
+            ctx.case(("seq", sm["input"], sm["lang"], tuple(sm["order"]), pos), nontrivial=pos > 0)
+            ctx.count("sequence_runs_compared")
+            ctx.count("sequence_files_compared", len(fr["files"]))
+            if model is not None:
+                ctx.traces += 1
+            rpbase = {"input": sm["input"], "lang": sm["lang"], "runs_in_interpreter": [sm["variants"][v] for v in sm["order"]],
+                      "options_of_runs": [sm["options"][v] for v in sm["order"]], "position": pos, "variant": sm["variants"][vi]}
+            if bool(fr["error"]) != bool(rr["error"]):
+                ctx.fail({"kind": "run-outcome-depends-on-history", "lang": sm["lang"], "variant": "config-sequence"},
+                         "a run fails in a fresh process and succeeds after other runs (or the other way round)",
+                         {**rpbase, "fresh_error": str(fr["error"])[:300], "in_sequence_error": str(rr["error"])[:300]})
+                continue
+            if fr["error"]:
+                ctx.count("sequence_variant_error_both")
+                continue
+            d = pr.compare(fr["files"], rr["files"])
+            if d:
+                rel = d[0]
+                fo = pathlib.Path(seq_fresh_jobs[sm["fresh"][vi]]["runs"][0]["out"])
+                so = pathlib.Path(sm["runs"][pos]["out"])
+                where, dl = shared.where_of_diff(sm["lang"], fo / rel, so / rel)
+                if model is not None and flags.get("cachedprop", True):
+                    ctx.disagree("config-sequence", {**rpbase, "file": rel, "first_differing_line": dl}, "equal (caches are per instance / transparent)", "files differ")
+                ctx.fail({"kind": "run-in-sequence-differs-from-fresh-process", "lang": sm["lang"], "file_kind": pr.file_kind(sm["lang"], rel), "where": where},
+                         f"{sm['lang']}: run {pos + 1} ({sm['variants'][vi]}) of a sequence of runs with different language configuration in one interpreter wrote "
+                         f"different bytes for {rel} than the same run in a fresh interpreter",
+                         {**rpbase, "file": rel, "n_differing_files": len(d), "first_differing_line": dl, "sha256": [fr["files"].get(rel), rr["files"].get(rel)]})
+                ctx.sample({"sequence": rpbase["runs_in_interpreter"], "position": pos, "differs": rel})
     bases = {m["cfg"]: n for n, m in meta.items() if m["variant"] == "whole"}
     first_lines_checked = 0
     for name, m in sorted(meta.items(), key=lambda kv: int(kv[0][1:])):
